@@ -87,6 +87,36 @@ def r_srcconst(P, chk):
              and "update_metavalue" not in r[1] and "transclude" not in r[1] and not r[1].startswith("d_string_")
              and not r[1].startswith("token_") and not r[1].startswith("stack_")]
     pred = P.reach(roots, stop=tuple(SRC_EXCEPT | SRC_EDITORS))
+    # which DString parameters does each function (transitively) mutate?
+    mut = {}
+    changed = True
+    rounds = 0
+    while changed and rounds < 8:
+        changed = False
+        rounds += 1
+        for g in P.all_funcs:
+            if not P.first_party(g) or g.unit.base == "d_string.c":
+                continue
+            gid = P.fid(g)
+            pnames = {q[0]: i for i, q in enumerate(g.params) if "DString" in q[1]}
+            if not pnames:
+                continue
+            for c in g.calls():
+                cal = c.get("callee")
+                if not cal:
+                    continue
+                args = c["c"][1:]
+                if cal in DSTRING_MUTATORS:
+                    idxs = [0]
+                else:
+                    h = P.resolve(g, cal)
+                    idxs = sorted(mut.get(P.fid(h), ())) if h is not None else []
+                for i in idxs:
+                    if i < len(args):
+                        k = key(args[i])
+                        if k in pnames and pnames[k] not in mut.setdefault(gid, set()):
+                            mut[gid].add(pnames[k])
+                            changed = True
     n = 0
     for fid in sorted(pred):
         f = P.by_fid(fid)
@@ -112,6 +142,20 @@ def r_srcconst(P, chk):
             elif ik.endswith("->dstr"):
                 ds_alias.add(name)
         for x in f.walk():
+            if x["k"] == "CallExpr" and x.get("callee") and x.get("callee") not in DSTRING_MUTATORS:
+                h = P.resolve(f, x["callee"])
+                if h is not None and h.name not in SRC_EXCEPT and h.name not in SRC_EDITORS:
+                    for i in sorted(mut.get(P.fid(h), ())):
+                        args = x["c"][1:]
+                        if i < len(args):
+                            a = key(args[i])
+                            if a.endswith("->dstr") or a in ds_alias:
+                                chain = " -> ".join(y[1] for y in P.chain(pred, fid))
+                                chk.obligation(rid, "%s %s(%s)" % (f.where(x), x["callee"], a), False)
+                                chk.violation(rid, "srcconst:%s:%s" % (f.name, x["callee"]), f.where(x),
+                                              "%s hands the engine's source DString to %s, which (transitively) edits its argument in "
+                                              "place, during a conversion (via %s): the caller's source text is modified" % (
+                                                  f.name, x["callee"], chain))
             if x["k"] == "CallExpr" and x.get("callee") in DSTRING_MUTATORS and len(x["c"]) > 1:
                 a = key(x["c"][1])
                 n += 1
